@@ -26,7 +26,11 @@ func escapeTemplate(tmpl *Template, node parse.Node, name string) error {
 	c, _ := tmpl.esc.escapeTree(context{}, node, name, 0)
 	var err *Error
 	if c.err != nil {
-		err, c.err.Name = c.err, name
+		// The error may be shared with the record of a called template and with errors
+		// returned earlier: name a copy.
+		e := *c.err
+		e.Name = name
+		err = &e
 	} else if c.state != stateText {
 		err = &Error{ErrEndContext, nil, name, 0, fmt.Sprintf("ends in a non-text context: %+v", c)}
 	}
@@ -442,8 +446,11 @@ func (e *escaper) escapeBranch(c context, n *parse.BranchNode, nodeName string) 
 			// Make clear that this is a problem on loop re-entry
 			// since developers tend to overlook that branch when
 			// debugging templates.
-			c0.err.Line = n.Line
-			c0.err.Description = "on range loop re-entry: " + c0.err.Description
+			// The error may be shared with the record of a called template: annotate a copy.
+			e := *c0.err
+			e.Line = n.Line
+			e.Description = "on range loop re-entry: " + e.Description
+			c0.err = &e
 			return c0
 		}
 	}
